@@ -159,16 +159,23 @@ func hC10Req() {
 		cfg.client = cfConnectGet
 		cfg.idem, cfg.hasIdem = 1, true
 	}
-	switch verifChoose("target", 3) {
+	restTarget := false
+	switch verifChoose("target", 4) {
 	case 0:
 		cfg.svcProtos = []Protocol{ProtocolGRPC}
 	case 1:
 		cfg.svcProtos = []Protocol{ProtocolConnect}
+	case 3:
+		// a REST backend (always JSON): the leading message is decoded before the backend is invoked, to build
+		// the request line, and re-encoded for the body
+		cfg.svcProtos = []Protocol{ProtocolREST}
+		cfg.kind = fkUnary
+		restTarget = true
 	default:
 		cfg.svcProtos = []Protocol{ProtocolGRPC}
 		cfg.kind = fkUnary
 	}
-	reencode := verifChoose("reencode", 2) == 1
+	reencode := restTarget || verifChoose("reencode", 2) == 1
 	jsonExtra := func(n int) int { return n + 2 }
 	if reencode {
 		cfg.svcCodecs = []string{CodecJSON}
